@@ -184,7 +184,7 @@ def resolveDeps {V : Type} (fields : List (Key Ã— PField V)) (amap : List (Key Ã
 def assignStrategy {V : Type} (o : Opts V) (ciNames : List Key) (amap : List (Key Ã— Key)) : Bool :=
   match o.dataFirstSearch with
   | some b => b
-  | none => !ciNames.isEmpty || !amap.isEmpty || o.ignoreRequired || o.addition != .ignore
+  | none => !ciNames.isEmpty || !amap.isEmpty || o.ignoreRequired || o.addition == .allow   -- `or self.options.addition`: truthy only
 
 structure ClassDecl (V : Type) where
   fields : List (FieldDecl V)
